@@ -1,11 +1,25 @@
-(* C17, mqtt-out: same case grammar as eng_c17file.ml, plus the configuration op `early`.
-   Normal cases: the client is there first, then the case's updates and registrations with a
-   publish-loop step after every update (theorem C17_mqtt_once_in_order_partial makes the result
-   independent of where those steps are). `early`: the traffic arrives and the publish loop
-   runs before the client has been handed over (start-up / reconnect window). *)
+(* C17, mqtt-out: same case grammar as eng_c17file.ml, plus the configuration op `early` and the
+   register / reconfiguration ops (see the grammar there).
+   Normal cases: the client is there first, then the case's updates, register changes and
+   reconfigurations in case order, with a publish-loop step after every update (theorem
+   C17_mqtt_once_in_order_partial makes what is sent independent of where those steps are); a
+   reconfiguration happens with an empty queue (the harness waits for that), so every message is
+   published with the QoS in force when it was emitted. `early`: the traffic arrives and the publish
+   loop runs before the client has been handed over (start-up / reconnect window).
+   The property says nothing about the QoS beyond the model (theorem C17_mqtt_qos_configured): the
+   spec side prints the model's QoS. *)
 open Conv
 open TargetsModel
 open Eng_c17file
+
+let info_of f =
+  match Stdlib.List.map optn f with
+  | [a; b; c; d; e; f; g; h] ->
+      { i_unit = a; i_parent = b; i_addr = c; i_asn = d; i_rib = e; i_file = f; i_name = g; i_desc = h }
+  | _ -> failwith "ingress info: 8 fields expected"
+
+let info_tok i =
+  "I" ^ join "," [po i.i_unit; po i.i_parent; po i.i_addr; po i.i_asn; po i.i_rib; po i.i_file; po i.i_name; po i.i_desc]
 
 let run_case (line : string) : string =
   Hashtbl.reset route_tab;
@@ -14,34 +28,47 @@ let run_case (line : string) : string =
   let nreg = ref 0 in
   let early = ref false in
   let nmsgs = ref 0 in
-  let infos : (int, string) Hashtbl.t = Hashtbl.create 8 in
-  Stdlib.List.iter (fun s ->
-    match words s with
+  let all = Stdlib.List.map words (split_on ';' line) in
+  Stdlib.List.iter (function ["early"] -> early := true | _ -> ()) all;
+  let pubs () = if !early then [] else Stdlib.List.init !nmsgs (fun _ -> MPublish) in
+  Stdlib.List.iter (fun toks ->
+    match toks with
     | ["name"; k] -> name := names.(int_of_string k mod Array.length names)
     | ["tpl"; t] -> tpl := str_of_text t
     | ["qos"; q] -> qos := int_of_string q
     | ("fmt" | "end") :: _ -> ()
-    | ["early"] -> early := true
+    | ["early"] -> ()
     | "ing" :: f ->
-        if Stdlib.List.length f <> 8 then failwith "ing: 8 fields expected";
         incr nreg;
-        Hashtbl.replace infos !nreg ("I" ^ join "," f);
-        h := MRegister (n_of_int !nreg, n_of_int !nreg) :: !h
+        h := MInfo (n_of_int !nreg, info_of f) :: !h
+    | ["reg"] -> incr nreg
+    | "G" :: k :: f ->
+        (match resolve !nreg k with
+         | Some id -> h := MInfo (id, info_of f) :: !h
+         | None -> failwith "G: ingress expected")
+    | ["R"; t; q] -> h := MReconf (str_of_text t, n_of_int (int_of_string q)) :: (pubs () @ !h)
     | toks -> (match update_of !nreg toks with
                | Some u ->
                    (match u with UOutput ms -> nmsgs := !nmsgs + Stdlib.List.length ms | _ -> ());
                    h := (if !early then [MUpdate u] else [MPublish; MUpdate u]) @ !h
-               | None -> failwith ("bad op: " ^ s)))
-    (split_on ';' line);
+               | None -> failwith ("bad op: " ^ join " " toks)))
+    all;
   let h = Stdlib.List.rev !h in
   let h = if !early then h @ Stdlib.List.init !nmsgs (fun _ -> MPublish) @ [MClient true]
           else MClient true :: h in
   let c = { mc_name = str_of_string !name; mc_template = !tpl; mc_qos = n_of_int !qos } in
-  let show p =
-    Printf.sprintf "P t=%s q%d i=%s %s" (text_of_str p.p_topic) (int_of_n p.p_qos)
-      (match p.p_ing with None -> "-" | Some i -> (try Hashtbl.find infos (int_of_n i) with Not_found -> "I?"))
-      (record_tok p.p_rec) in
-  let model = Stdlib.List.map show (mqtt_observe c h) @ ["end:ok"] in
-  let spec = Stdlib.List.map show (mqtt_spec c [] h) @ ["end:ok"] in
+  let show q m =
+    Printf.sprintf "P t=%s q%s i=%s %s" (text_of_str m.s_topic) q
+      (match m.s_ing with None -> "-" | Some i -> info_tok i)
+      (record_tok m.s_rec) in
+  let published = mqtt_observe c h in
+  let model = Stdlib.List.map (fun p -> show (pn p.p_qos) p.p_msg) published @ ["end:ok"] in
+  let demanded = mqtt_spec c [] h in
+  (* the k-th demanded message with the QoS of the k-th publication where there is one *)
+  let rec zip ps ds = match ps, ds with
+    | p :: ps', d :: ds' -> show (pn p.p_qos) d :: zip ps' ds'
+    | [], d :: ds' -> show "*" d :: zip [] ds'
+    | _, [] -> [] in
+  let spec = zip published demanded @ ["end:ok"] in
   let m = join " " model and s = join " " spec in
   if m = s then m else m ^ " ||| " ^ s
